@@ -313,7 +313,7 @@ func (n *Node) DataType() *ua.ExpandedNodeID {
 			log.Printf("reftypeid was nil!")
 			continue
 		}
-		if r.ReferenceTypeID.IntID() == id.HasTypeDefinition && r.IsForward {
+		if r.ReferenceTypeID.IntID() == id.HasTypeDefinition && r.IsForward && r.NodeID != nil {
 			return r.NodeID
 		}
 	}
